@@ -4,6 +4,7 @@ pub mod c01;
 pub mod c02;
 pub mod c08;
 pub mod c09;
+pub mod c10;
 pub mod c11;
 
 pub fn lookup(id: &str) -> Option<(&'static str, fn(&mut Ctx))> {
@@ -12,6 +13,7 @@ pub fn lookup(id: &str) -> Option<(&'static str, fn(&mut Ctx))> {
         "C02" => ("C02", c02::run as fn(&mut Ctx)),
         "C08" => ("C08", c08::run as fn(&mut Ctx)),
         "C09" => ("C09", c09::run as fn(&mut Ctx)),
+        "C10" => ("C10", c10::run as fn(&mut Ctx)),
         "C11" => ("C11", c11::run as fn(&mut Ctx)),
         _ => return None,
     })
